@@ -78,6 +78,7 @@ static const char *errname(int e) {
  * reaches the transcript, so that the failing operation is the first one without a result */
 void __sanitizer_set_death_callback(void (*cb)(void)) __attribute__((weak));
 #include <signal.h>
+#include <fcntl.h>
 #include <unistd.h>
 /* a scratch file the harness owns (removed on every exit path, also a sanitizer death) */
 static const char *verif_tmp_path = NULL;
@@ -85,6 +86,15 @@ static void verif_flush_cb(void) { fflush(stdout); if (verif_tmp_path) unlink(ve
 static void verif_abort_handler(int sig) { (void) sig; verif_flush_cb(); _exit(99); }
 static void harness_init(void) {
     setvbuf(stdout, NULL, _IOFBF, 1 << 16);
+    /* the operation lines arrive on descriptor 0; move them to a high descriptor and CLOSE 0, so that
+     * the library runs in a daemon's situation: its first open() returns descriptor 0 (a valid one) */
+    {
+        int nfd = fcntl(0, F_DUPFD, 100);
+        if (nfd >= 0) {
+            FILE *f = fdopen(nfd, "r");
+            if (f) { close(0); stdin = f; } else close(nfd);
+        }
+    }
     if (__sanitizer_set_death_callback) __sanitizer_set_death_callback(verif_flush_cb);
     /* UBSan (a second runtime) and assert() end in abort(): flush there too */
     signal(SIGABRT, verif_abort_handler);
